@@ -4,5 +4,7 @@ EXTENDS MarkerNormalForm
 SelQuick == { Atom("p", {1}, TRUE), Atom("p", {2, 3}, TRUE), Atom("p", {1, 2}, TRUE),
               Atom("r", {1}, FALSE), Atom("r", {1, 2}, FALSE) }
 SelProj  == { Atom("p", {1}, TRUE), Atom("p", {2, 3}, TRUE), Atom("r", {1}, FALSE), Atom("r", {1, 2}, FALSE) }
+\* four variables, one atom each (p mergeable, the others not): for the Fam3 inputs of the Proj configuration
+SelFour  == { Atom("p", {1}, TRUE), Atom("r", {1}, FALSE), Atom("q", {1}, FALSE), Atom("t", {1}, FALSE) }
 SelTiny  == { Atom("p", {1}, TRUE), Atom("p", {2, 3}, TRUE), Atom("r", {1}, FALSE) }
 =============================================================================
